@@ -31,7 +31,7 @@ def validation_dominates_io(repo, col):
     rule = "E-ORDER.validate-before-io"
     for meth, io_attr in (("write_chunk", "store_chunk"),
                           ("read_chunk", "fetch_chunk")):
-        fn = repo.func("precomputed_io", "PrecomputedIO." + meth)
+        fn = repo.func("precomputed_io", "PrecomputedIO." + meth, inline=True)
         cfg = fn.cfg()
         owner = enclosing_stmt_map(fn.node)
         io_calls = _calls(fn, lambda c: _attr_call(c, io_attr))
@@ -620,6 +620,25 @@ def shard_index_last(repo, col):
 # ---------------------------------------------------------------------
 # O7: MiniShard.close drains the reorder buffer
 # ---------------------------------------------------------------------
+def _means_nonempty(test, attr):
+    """The test, when true, says that the container attribute is not empty:
+    `len(self.x) > 0`, `0 < len(self.x)`, `len(self.x) != 0`, `len(self.x)`,
+    `self.x`."""
+    from .dataflow import holds
+    for a in holds(test, True):
+        for b in (a, a.flipped()):
+            lt = norm(b.left)
+            if attr not in lt:
+                continue
+            if b.op == "truthy":
+                return True
+            if lt.startswith("len(") and (
+                    (b.op in (">", "!=") and const_int(b.right) == 0) or
+                    (b.op == ">=" and const_int(b.right) == 1)):
+                return True
+    return False
+
+
 def minishard_drain(repo, col):
     rule = "E-ORDER.drain"
     fn = repo.func("sharded_file_accessor", "MiniShard.close")
@@ -627,9 +646,7 @@ def minishard_drain(repo, col):
     drains = []
     for n in cfg.nodes:
         if n.kind == "loop" and isinstance(n.ast, ast.While):
-            t = norm(n.ast.test)
-            if "_chunk_buffer" in t and (t.startswith("len(") or
-                                         t.startswith("self._chunk_buffer")):
+            if _means_nonempty(n.ast.test, "_chunk_buffer"):
                 drains.append(n)
     ok = bool(drains) and cfg.every_path_passes(cfg.entry, cfg.exit, drains)
     col.add(rule, fn, "while len(self._chunk_buffer) > 0", ok,
